@@ -58,6 +58,21 @@ CHECKS['C13'] = ('proof', 'On a byte-exact Gallina model of the whole pipeline (
                  'partial: the completeness half of "valid iff succeeds" is covered by the correspondence (valid generated inputs must build), not by a theorem. '
                  'Repaired defects F4, F6, F7, F8. Known finding K5 (recursion limit) probed on every run.', '§5 C13')
 
+CHECKS['C07'] = ('proof', 'Lookup = declarations on the scope chain; declarations off the chain never change a lookup; the interface of every exposed '
+                 'port, the C++ type of every event parameter and the claim enum are THE unique declaration of the right kind on the respective chain, '
+                 'anything else is FindError (Properties/C07.v, on the byte-exact builder model). Correspondence: name-reuse models with every spelling, '
+                 'each also built with unrelated same-named declarations added (must be byte-identical), compared with the model.',
+                 'partial: extern data values are opaque C++ text (whether it denotes the same C++ type in another namespace is outside the model). Repaired defect F6.', '§5 C07')
+CHECKS['C08'] = ('proof', 'The pipeline model is a function without hash seed or state; theorem: the output is invariant under every listing order of every '
+                 'name set of the configuration (membership/emptiness/sorting only; sorted permutations are unique) (Properties/C08.v). Correspondence: every '
+                 'case built under several PYTHONHASHSEEDs with shuffled set insertion orders, compared across seeds, with MD5(UTF-8) and with the model; targeted '
+                 'search for seed dependence when the correspondence breaks.',
+                 'trusted: hashlib.md5 in the harness as reference for the hash clause (no Gallina MD5 yet: that clause is checked, not proved). Repaired defect F3.', '§5 C08')
+CHECKS['C12'] = ('proof', 'Builder as a state machine over its recipe state: every build of any history equals the build from a fresh state; support files = '
+                 'stand-alone generation (Properties/C12.v). Correspondence: build histories in one interpreter over shared parsed models with deep snapshots of '
+                 'model and configuration before/after each build, results compared with the stateless model.',
+                 'partial: "inputs unchanged" is a statement about the Python heap - checked by snapshots on every run, not proved (no heap model of adv_shell).', '§5 C12')
+
 NOT_YET = {
 }
 
